@@ -815,7 +815,17 @@ def expr_node_spans(run, R="SPAN"):
                             if o3 and o3[0] == "call":
                                 blocks = [o3[2]]
                     kids.append((deep(f, inner, 6), blocks))
-            if not kids or not all(b for _, b in kids):
+            if not kids:
+                # a leaf built by this function: its span is made of the tokens this function consumed (not the span of a
+                # sub-expression parsed by someone else, which would leave out an operator consumed here)
+                if st["rv"].get("variant") in ("Literal", "Variable") and op_local(ops[0]) is not None and (f.local_ty(op_local(ops[0])) or "").endswith("span::Span"):
+                    spl = deep(f, ops[0], 7)
+                    n_leaf = getattr(run, "_leafspans", 0) + 1
+                    run._leafspans = n_leaf
+                    if not (re.search(r"Walker::(expect|maybe_expect)\(", spl) or spl.startswith("var:") or re.fullmatch(r"P\d+", spl)):
+                        bad.append("%s %s: a leaf whose span `%s` is not made of the tokens consumed for it" % (f.loc(st["span"]), st["rv"].get("variant"), spl[:80]))
+                continue
+            if not all(b for _, b in kids):
                 continue
             n += 1
             sp = deep(f, ops[0], 7)
